@@ -27,6 +27,7 @@ structure DSt where
   doms : List String
   keys : List String          -- key tokens, numbered by position
   hostile : Bool              -- some key of this case is empty or contains '/'
+  validates : Bool            -- fact: Save refuses calls with such a key up front
 
 def idOf (l : List String) (t : String) : List String × Nat :=
   match l.idxOf? t with
@@ -105,7 +106,10 @@ def step (d : DSt) (line : String) : DSt × String :=
         (ks, acc.2 ++ [(id, kv.2)])) (d.keys, [])
       let hostile := d.hostile || l.any (fun kv => isHostileTok kv.1)
       let f : Key → Option Val := fun k => kl.lookup k
-      let s' := if hostile then stepX d.cfg keys d.s i dm (some f) else Hv.Hydrex.step d.cfg d.s (.save i dm f)
+      -- with key validation in Save, a call that carries an invalid key changes nothing
+      let invalid := l.any (fun kv => isHostileTok kv.1)
+      let s' := if invalid && d.validates then d.s
+        else if hostile then stepX d.cfg keys d.s i dm (some f) else Hv.Hydrex.step d.cfg d.s (.save i dm f)
       ({ d with s := s', idxs := idxs, doms := doms, keys := keys, hostile := hostile,
                 spec := fun i' d' k => if i' = i ∧ d' = dm then f k else d.spec i' d' k }, "ok")
   | ["destroy", it, dt] =>
@@ -122,6 +126,7 @@ def step (d : DSt) (line : String) : DSt × String :=
     let want := ks.map (d.spec i dm)
     let fl :=
       if got == want then ""
+      else if d.hostile && d.validates then "\t#F:C27-invalid-key-save-ignored"
       else if d.hostile then (if d.keys.contains "x" then "\t#F:C27-empty-key-save-ignored" else "\t#F:C27-key-with-separator-not-indexed")
       else if got.map Option.isSome == want.map Option.isSome then "\t#F:C27-value-update-skipped"
       else "\t#F:C27-stale-keys-kept"
@@ -135,7 +140,8 @@ def step (d : DSt) (line : String) : DSt × String :=
     -- Spec: the domains whose last saved items contain exactly this key
     let want := ds.filter fun dm => (d.spec i dm k).isSome
     let fl := if got == want then "" else
-      (if d.hostile || isHostileTok kt then
+      (if (d.hostile || isHostileTok kt) && d.validates then "\t#F:C27-invalid-key-save-ignored"
+       else if d.hostile || isHostileTok kt then
          (if d.keys.contains "x" || kt == "x" then "\t#F:C27-empty-key-save-ignored" else "\t#F:C27-key-with-separator-not-indexed")
        else if d.cfg.destroyCleansIndex then "\t#F:C27-index-inconsistent" else "\t#F:C27-destroy-leaves-index")
     let parts := ((got.map fun dm => d.doms.getD dm "?").toArray.qsort (· < ·)).toList
@@ -146,7 +152,7 @@ def run (args : List String) : IO UInt32 := do
   let kv := parseArgs args
   let yes (k : String) : Bool := arg kv k == "yes"
   let cfg : Cfg := ⟨yes "updatesExisting", yes "saveRemovesStale", yes "destroyCleansIndex"⟩
-  lineLoop step ⟨cfg, init, fun _ _ _ => none, [], [], [], false⟩
+  lineLoop step ⟨cfg, init, fun _ _ _ => none, [], [], [], false, yes "validatesKeys"⟩
   return 0
 
 end Driver.C27
